@@ -30,6 +30,9 @@ struct LoopSpec {
     invariant: Vec<String>,
     #[serde(default)]
     decreases: String,
+    /// ghost text inserted at the start of the loop body (proof blocks / documented assumptions only)
+    #[serde(default)]
+    body_prologue: String,
 }
 
 #[derive(Deserialize, Default, Clone)]
@@ -939,6 +942,9 @@ impl<'a> Rw<'a> {
             }
             t.push(' ');
             self.insert_open(body_start, t);
+            if !ls.body_prologue.is_empty() {
+                self.insert_open(body_start + 1, format!(" {} ", ls.body_prologue));
+            }
         }
     }
 }
